@@ -450,9 +450,47 @@ def check_c03(prop_id, tier, seed):
     stats["exhaustive"] = False
     wd = os.path.join(vc.RUN, "work_%s" % prop_id)
     verdict, events, _ = ec.run_parts(prop_id, parts, wd)
-    return ec.finish(prop_id, tier, seed, t0, verdict, events, stats, owns=cfg_diff_owner(verdict, "columnar", "rowpath"),
-                     configs=COLUMNAR_CFGS, extra_cov={"families": ["F4", "F4S", "big"], "configs": ["columnar", "rowpath"],
-                                                       "seeded_table_sizes": sizes, "aggregate_queries": len(qs)})
+    # large scale (several 1024-value batches of the SIMD kernels), decided by ConfigEq.tla: the observation of every
+    # aggregate query must be the same with the columnar path on and off
+    n_rows, nseeds = {"quick": (2600, 1), "thorough": (20000, 3)}[tier]
+    large, nq = large_columnar_scenarios(prop_id, seed, n_rows, nseeds)
+    da = ["--digest-above", "0", "--no-state"]
+    large_cfgs = [{"name": "rowpath", "args": da, "env": {"VIBESQL_VERIF_COLUMNAR": "off"}}, {"name": "columnar", "args": da}]
+    wd2 = os.path.join(vc.RUN, "work_%s_large" % prop_id)
+    v2, ev2, _ = ec.run_parts(prop_id, [{"name": "large", "scenarios": large, "configs": large_cfgs}], wd2,
+                              trace_module="ConfigEq", trace_cfg="ConfigEq.cfg", shards="by_scenario")
+    okq = 0
+    with open(ev2) as fh:
+        for ln in fh:
+            e = json.loads(ln)
+            if e["a"].get("a") == "q" and e["out"] == "ok" and e.get("dg", {}).get("n", 0) > 0:
+                okq += 1
+    if okq < len(large) * nq * len(large_cfgs) // 2:
+        raise vc.ToolError("large-scale part is vacuous: only %d successful non-empty query results" % okq)
+    rc = ec.finish(prop_id, tier, seed, t0, verdict, events, stats, owns=cfg_diff_owner(verdict, "columnar", "rowpath"),
+                   configs=COLUMNAR_CFGS, extra_bad=v2["bad"], extra_events=ev2, extra_cfgs=large_cfgs,
+                   extra_cov={"families": ["F4", "F4S", "big", "large"], "configs": ["columnar", "rowpath"],
+                              "seeded_table_sizes": sizes, "aggregate_queries": len(qs), "large_rows": n_rows,
+                              "large_queries_compared": v2["cnt"].get("queries", 0), "large_nonempty_ok_results": okq})
+    if rc == 0 and os.environ.get("VERIF_KEEP") != "1":
+        shutil.rmtree(wd2, ignore_errors=True)
+    return rc
+
+
+def large_columnar_scenarios(prop_id, seed, n, nseeds):
+    col = lambda kind, mod, nullp=0: {"kind": kind, "mod": mod, "nullp": nullp}
+    q = lambda sql: {"a": "q", "raw": sql, "ord": False}
+    aggs = ["COUNT(*)", "COUNT(B)", "SUM(A)", "SUM(B)", "AVG(B)", "MIN(ID)", "MAX(ID)", "MIN(B)", "MAX(B)", "MAX(A)", "MIN(C)", "MAX(C)",
+            "SUM(ID), MAX(ID), MIN(ID), COUNT(*)"]
+    wheres = ["", " WHERE A < 20", " WHERE B >= 10 AND A > 3", " WHERE ID > 1500", " WHERE B IS NOT NULL AND ID <= 2100"]
+    queries = [q("SELECT %s FROM TB%s" % (a, w)) for a in aggs for w in wheres]
+    out = []
+    for k in range(nseeds):
+        steps = [{"a": "sql", "sql": "CREATE TABLE TB (ID INTEGER PRIMARY KEY, A INTEGER, B INTEGER, C VARCHAR(10))"},
+                 {"a": "load", "t": "TB", "n": n, "seed": seed * 100 + k,
+                  "cols": [col("seq", 1), col("int", 40, 5), col("int", 2500, 10), col("str", 7, 5)]}]
+        out.append({"id": "%s-large-%d" % (prop_id, k), "steps": steps + queries})
+    return out, len(queries)
 
 
 # ---------------------------------------------------------------- C12: referential integrity (MC_Fk)
@@ -462,10 +500,13 @@ def check_c03(prop_id, tier, seed):
 @prop("C12")
 def check_c12(prop_id, tier, seed):
     t0 = time.time()
-    depth = {"quick": 4, "thorough": 5}[tier]
+    depth = 4
     parts, agg = [], {"states_generated": 0, "distinct_states": 0, "mc_ok": True, "exhaustive": True}
     cfgs = [{"name": "default", "args": ["--idx"]}]
-    for m, gm, wd_ in FK_VARIANTS:
+    # thorough: the same depth over every combination of the three constants (depth 5 over five variants would be ~340 000 histories)
+    variants = FK_VARIANTS if tier == "quick" else [(m, gm, wd_) for m in ("cascade", "setnull", "noaction") for gm in ("cascade", "noaction")
+                                                     for wd_ in ("TRUE", "FALSE")]
+    for m, gm, wd_ in variants:
         scen, stats = vc.gen_scenarios(prop_id, "MC_Fk", "MC_Fk.cfg", ec.ENGINE_DEPS,
                                        consts={"MaxDepth": depth, "Mode": '"%s"' % m, "GMode": '"%s"' % gm, "WithD": wd_}, workers=1)
         for k in ("states_generated", "distinct_states"):
@@ -476,7 +517,7 @@ def check_c12(prop_id, tier, seed):
         parts.append({"name": tag, "scenarios": scen, "configs": cfgs})
     wd = os.path.join(vc.RUN, "work_%s" % prop_id)
     verdict, events, _ = ec.run_parts(prop_id, parts, wd)
-    return ec.finish(prop_id, tier, seed, t0, verdict, events, agg, configs=cfgs, extra_cov={"fk_variants": ["/".join(v) for v in FK_VARIANTS]})
+    return ec.finish(prop_id, tier, seed, t0, verdict, events, agg, configs=cfgs, extra_cov={"fk_variants": ["/".join(v) for v in variants]})
 
 
 # ---------------------------------------------------------------- C04: results independent of parallelism
